@@ -158,6 +158,36 @@ fn twin_text(s: &str) -> String {
     s.split('\n').map(|l| if l.trim().is_empty() { l.chars().filter(|c| c.is_whitespace()).collect::<String>() } else { "text".to_string() }).collect::<Vec<_>>().join("\n")
 }
 
+/// The text slots that clap_mangen places on control lines (`.TH` gets the version, `.SH` the help
+/// headings) get adversarial content too.
+fn hostile_control_slots(rng: &mut Rng, c: &mut CmdSpec) {
+    const SUFFIX: &[&str] = &["\n.SH INJECTED", "\n'ne 1", "\n.so /etc/passwd", " \"q", "\\", "\n", "\n.", " x\n\n.br"];
+    if let Some(v) = &mut c.version {
+        if rng.chance(1, 2) {
+            v.push_str(*rng.pick(SUFFIX));
+        }
+    }
+    if let Some(h) = &mut c.subcommand_help_heading {
+        if rng.chance(1, 2) {
+            h.push_str(*rng.pick(SUFFIX));
+        }
+    }
+    let mut heads: Vec<String> = c.args.iter().filter_map(|a| a.help_heading.clone()).collect();
+    heads.sort();
+    heads.dedup();
+    for h in heads {
+        if rng.chance(1, 3) {
+            let suffix = *rng.pick(SUFFIX);
+            for a in c.args.iter_mut().filter(|a| a.help_heading.as_deref() == Some(h.as_str())) {
+                a.help_heading = Some(format!("{h}{suffix}"));
+            }
+        }
+    }
+    for s in c.subs.iter_mut() {
+        hostile_control_slots(rng, s);
+    }
+}
+
 fn twin_spec(c: &CmdSpec) -> CmdSpec {
     let mut t = c.clone();
     let f = |o: &mut Option<String>| {
@@ -172,6 +202,23 @@ fn twin_spec(c: &CmdSpec) -> CmdSpec {
     f(&mut t.after_long_help);
     f(&mut t.author);
     f(&mut t.long_version);
+    f(&mut t.version);
+    f(&mut t.subcommand_help_heading);
+    // headings identify sections: distinct headings stay distinct (and equal ones equal, up to case as in
+    // the original), only the characters become innocuous
+    for a in t.args.iter_mut() {
+        if let Some(h) = &mut a.help_heading {
+            let mut lines = h.split('\n');
+            let first = lines.next().unwrap_or("");
+            let tag: String = first.chars().map(|c| if c.is_ascii_alphanumeric() { c } else { 'x' }).collect();
+            let mut t2 = format!("H{tag}");
+            for l in lines {
+                t2.push('\n');
+                t2.push_str(if l.trim().is_empty() { "" } else { "text" });
+            }
+            *h = t2;
+        }
+    }
     for a in t.args.iter_mut() {
         f(&mut a.help);
         f(&mut a.long_help);
@@ -793,6 +840,9 @@ impl Engine for SinkSim {
         }
         if self.0 == Which::C16 {
             spec.name = (*rng.pick(&["prog", "my-app", "my_app"])).to_string();
+        }
+        if self.0 == Which::C19 && rng.chance(1, 3) {
+            hostile_control_slots(rng, &mut spec);
         }
         let plan = gen_plan(rng, 40, 3000, true);
         let mut queries = Vec::new();
